@@ -312,6 +312,17 @@ bool symbol_set::is_valid() const
     return false;
   }
 
+  // Individuals are built calling `roulette` / `roulette_terminal` for every
+  // category and the roulette draws a slot in the `[0, sum of weights[`
+  // interval: every category needs a terminal that can be selected (and, when
+  // it has functions, a function that can be selected).
+  for (const auto &v : views_)
+    if (!v.terminals.sum() || (v.functions.size() && !v.functions.sum()))
+    {
+      vitaERROR << "Category without a selectable terminal / function";
+      return false;
+    }
+
   return true;
 }
 
